@@ -6,6 +6,8 @@ Tie:      function level — `merge_percentiles` on generated (qs, vals, Ns) vs 
           vs float64, tolerance 1e-9) + the property oracle on the real output; API level — `da.percentile` on
           1-d data for all chunkings of small arrays / random chunkings (oracle + Lean merge of NumPy's per-chunk
           percentiles), `da.nanpercentile` / n-d `da.percentile` along an axis vs NumPy.
+Extension: lean/DaskModel/Model/ChunkPercentile.lean (+IO), lean/DaskModel/Props/C32xData.lean, section `pctdata`
+          (every percentile_chunk task of the real graph vs Lean `chunkpct`, the Lean pipeline `pct1d` vs da.percentile).
 """
 from __future__ import annotations
 
@@ -31,16 +33,25 @@ LEVEL_TEXT = (
     "executable model of merge_percentiles (any validated sort permutation): mergePercentilesWith_spec (its outputs are "
     "select on sorted vals / cumulative weights whose values all come from the inputs), mergePercentilesWith_within (every "
     "output lies between two of the merged input values; _between: within any bounds of the inputs), "
-    "mergePercentilesWith_monotone (sorted finalq ⇒ sorted outputs). That the merged extremes are the data's min/max rests on "
-    "NumPy's per-chunk percentile at q=0/100 (trusted, validated). Float interpolation rounding and nanpercentile (rechunk + "
-    "NumPy per block) are validated only."
+    "mergePercentilesWith_monotone (sorted finalq ⇒ sorted outputs). Extension (Props/C32xData, Model/ChunkPercentile): NumPy's "
+    "percentile of one chunk is modelled too (virtual index (n-1)q/100; floor / ceil / round-half-even / midpoint / lerp on the "
+    "sorted chunk) and the whole 1-d pipeline percentile1d (chunks -> _percentile at [0]+q+[100] -> merge_percentiles) is proved "
+    "about the DATA, for every chunking (empty chunks included), method and validated sort permutation: chunk_pct_within, "
+    "chunk_pct_q0 / chunk_pct_q100 (a chunk's 0th / 100th percentile is its minimum / maximum), percentile_within_data, "
+    "percentile_monotone, percentile_q0_q100 (where q = 0 / 100 the result IS the data's minimum / maximum: arrange_perm, "
+    "liveEntries_weight), percentile_1d_statement (the four clauses together; a run returns values iff every q is in [0, 100] "
+    "and some chunk is non-empty: percentile1d_ok). Float rounding (interpolation, NumPy's float virtual index) and "
+    "nanpercentile / n-d percentile (rechunk + NumPy per block) are validated only."
 )
-LEVEL_NOTE = ("Trusted: Lean kernel + standard axioms; np.percentile on one chunk (values between chunk min and max, q=0/100 "
-              "exact); float64 rounding of np.interp/cumsum ('up to rounding' in the statement); t-digest path needs crick (absent).")
+LEVEL_NOTE = ("Trusted: Lean kernel + standard axioms; that np.percentile on one chunk is the modelled formula (diffed on every chunk "
+              "task of the real graph in section pctdata; chunks where NumPy's float virtual index rounds across an integer are "
+              "compared by the oracle only); float64 rounding of np.interp/cumsum ('up to rounding' in the statement); t-digest path "
+              "needs crick (absent).")
 TECHNIQUE = "Lean 4 proof over Rat (order reasoning on sorted merged entries) + differential correspondence against merge_percentiles / da.percentile / NumPy"
 ASSUMPTIONS = ["q vectors are sorted (weights non-negative), data NaN-free",
-               "np.percentile(chunk, [0, …, 100]) returns non-decreasing values with the chunk min and max at the ends"]
-TRUSTED = ["np.percentile on a single chunk", "np.interp / np.searchsorted semantics as modelled (validated by the function-level diff)"]
+               "np.percentile(chunk, q, method) is the exact-arithmetic formula of Model/ChunkPercentile (NumPy 2.x _quantile; validated per chunk task)"]
+TRUSTED = ["np.sort / np.partition inside np.percentile (the model sorts the chunk itself)",
+           "np.interp / np.searchsorted semantics as modelled (validated by the function-level diff)"]
 
 
 def _da():
@@ -363,8 +374,9 @@ def case_pctdata(ctx, inp):
     elif exact:
         r = ctx.lean(Sym("pct1d"), Sym(method), [enc_rat(q) for q in fq], enc_blocks, order)
         if r[0] == "bad-order":
-            raise AssertionError("np.argsort permutation rejected by the model")
-        if r[0] != "ok" or res == "raised":
+            # the model's own chunk values are not sorted by the permutation that sorts the real ones
+            ctx.disagree("np.argsort permutation of the real chunk results vs the model's chunk values", "not value-sorting", order)
+        elif r[0] != "ok" or res == "raised":
             ctx.eq("da.percentile raises iff the model does", str(r[0]), "raised" if res == "raised" else "ok")
         else:
             mv = dec_rats(r[1])
